@@ -1,5 +1,5 @@
 import IdspModel.Lemmas.Atan2Tab
-/-! `atani` table, chunk 1 of 10: quotient fields 8192 … 16384 (complete range, evaluated by the kernel). -/
+/-! `atani` table, chunk 1 of 8: quotient fields 8192 … 16384 (complete range, evaluated by the kernel). -/
 namespace Idsp
 
 theorem atanTab1 : atanRun 8192 8193 = true := by decide +kernel
